@@ -22,6 +22,7 @@ import (
 //	child    Child()         → moved (the script goes on with the child) | nil (end) | fault (end)
 //	parent   Parent()        → moved | nil | fault
 //	fromkey  TypedNameFromMapKey(MapKey() of a fresh name of the same three strings) → moved | reported CODE (end)
+//	eq       Equals(a fresh name of the same three strings) → t | f   (compares, and caches, the MapKey())
 //
 // Direct predicate ("names … denote one entry"): every key the script prints, and the key of the name the script ends
 // with, is the key of a FRESH typed name of the same namespace, name and authority (`derived-key` when the strings hold a
@@ -49,7 +50,7 @@ func execTn(args []sx.Sexp) (res core.Result) {
 	for _, o := range args[1].Args() {
 		must(!o.IsList, "op")
 		switch o.Atom {
-		case "key", "name", "qual", "parts", "child", "parent", "fromkey":
+		case "key", "name", "qual", "parts", "child", "parent", "fromkey", "eq":
 		default:
 			panic(bad{"op"})
 		}
@@ -106,6 +107,19 @@ loop:
 			outs = append(outs, "key "+sx.Str(k).String())
 			if want := fresh(cur); k != want {
 				setFail(keyClass, fmt.Sprintf("%s: MapKey() = %q, a fresh typed name of the same strings has %q", at, k, want))
+			}
+		case "eq":
+			keyed = true
+			var eq bool
+			f := px.NewTypedName2(cur.Namespace(), "::"+cur.Name(), cur.Authority())
+			if r := safely(func() { eq = cur.Equals(f, nil) }); r != "" {
+				outs = append(outs, r)
+				setFail("fault", at)
+				break loop
+			}
+			outs = append(outs, sx.B(eq))
+			if !eq {
+				setFail(keyClass, fmt.Sprintf("%s: not Equals to a fresh typed name of the same strings", at))
 			}
 		case "name":
 			outs = append(outs, "name "+sx.Str(cur.Name()).String())
@@ -203,7 +217,7 @@ loop:
 // genKey: every script of length <= 3 (quick) / <= 4 (thorough) over the seven methods, on names with and without
 // letters whose lower case has another UTF-8 length, under the runtime authority; then other authorities and namespaces
 func genKey(g *core.G) {
-	methods := []string{"key", "child", "parent", "parts", "qual", "fromkey", "name"}
+	methods := []string{"key", "child", "parent", "parts", "qual", "fromkey", "name", "eq"}
 	maxLen := 3
 	if g.Thorough() {
 		maxLen = 4
@@ -222,7 +236,7 @@ func genKey(g *core.G) {
 		}
 	}
 	rec(nil)
-	names := []string{"a", "Ab::Cd::ef", "::A::b", "a::", "", "a:::b", "A::1b", "Kx::Foo", "İx::Foo::Bar", "Ⱥx::Foo", "É::é", "a::K"}
+	names := []string{"a", "Ab::Cd::ef", "::A::b", "a::", "", "a:::b", "A::1b", "\u212ax::Foo", "\u0130x::Foo::Bar", "\u023ax::Foo", "\u00c9::\u00e9", "a::\u212a"}
 	rt := string(px.RuntimeNameAuthority)
 	for _, n := range names {
 		for _, s := range scripts {
@@ -230,9 +244,9 @@ func genKey(g *core.G) {
 		}
 	}
 	r := g.Rng
-	auths := []string{rt, "http://K.example", "", "x", "HTTP://EXAMPLE.COM/İ"}
-	nss := []string{"type", "Type", "", "tÉpe", "function"}
-	segs := []string{"a", "Ab", "B_1", "K", "İx", "Ⱥ", "é", "1x", "", "x y"}
+	auths := []string{rt, "http://\u212a.example", "", "x", "HTTP://EXAMPLE.COM/\u0130"}
+	nss := []string{"type", "Type", "", "t\u00c9pe", "function"}
+	segs := []string{"a", "Ab", "B_1", "\u212a", "\u0130x", "\u023a", "\u00e9", "1x", "", "x y"}
 	for i := 0; i < 400*g.Scale; i++ {
 		var parts []string
 		for j, k := 0, 1+r.Intn(4); j < k; j++ {
